@@ -196,6 +196,28 @@ def check(run: Run) -> None:
                                "ops": [{"op": "== / hash / bool", "observed": probs, "expected": "every byte of the structure belongs to a field that takes part"}]})
                     break
 
+    # members of an ANONYMOUS nested structure are reachable from the outer structure under their own names - whatever they are called
+    from dissect.cstruct import cstruct as _cstruct
+    for mname in ("size", "alignment", "dynamic", "fields", "lookup", "length", "sizes"):
+        n_oracle += 1
+        text = f"struct outer {{ uint8 tag; struct {{ uint16 {mname}; uint16 x; }}; }};"
+        try:
+            cs_a = _cstruct()
+            cs_a.load(text)
+            pv = cs_a.outer(bytes([1, 2, 0, 3, 0]))
+            q = cs_a.outer()
+            q.tag = 1
+            setattr(q, mname, 2)
+            q.x = 3
+            got = (getattr(pv, mname), q.dumps(), q == pv, bool(cs_a.outer()))
+        except Exception as e:  # noqa: BLE001
+            got = f"{type(e).__name__}: {e}"
+        want = (2, bytes([1, 2, 0, 3, 0]), True, False)
+        if got != want:
+            failures += 1
+            # recorded finding for the names the structure CLASS uses for its own data (size, alignment, dynamic, fields, lookup)
+            sig = "C17/anonymous-member-named-like-a-class-attribute" if mname in ("size", "alignment", "dynamic", "fields", "lookup") else "C17/anonymous-member"
+            run.report(sig, {"definition": text, "ops": [{"op": f"parse 0102000300; read .{mname}; build by assignment; ==; bool of the default", "observed": repr(got)[:300], "expected": repr(want)}]})
     F.obligation_fallback(run, ok, bool(failures or mism))
     F.finish_cov(run, items, mism,
                  "part 1: per round 6 structure classes with the SAME field count in one cstruct object (names permuted, reversed, keyword-like, identical shapes in two classes): "
